@@ -13,6 +13,8 @@ AllMoves == {Add(0), Add(1), Add(1000), Add(-5), Set(0), Set(M - 2), Add(Half)}
 TimeAlphabet == AllDts \X {Add(1000), Add(0), Add(-5)}
 \* every counter move, spacings that make 0, 1, 2 or 3 windows sample
 WrapAlphabet == {1, 10000, 30000, 301000} \X AllMoves
+\* thorough tier: one more spacing (two observations at the same instant)
+WrapAlphabetT == {0, 1, 10000, 30000, 301000} \X AllMoves
 \* small alphabet for the non-vacuity runs
 DevAlphabet  == {0, 1, 10000, 11000, 30000} \X {Add(1000), Add(-5), Add(0)}
 =============================================================================
